@@ -274,6 +274,101 @@ where
     kani::cover!(use_guard, "guard-used");
 }
 
+/// Size overflow and `reserve` (C07): an overflowing request is an error, never a panic or a wrap;
+/// a failed request changes nothing; `reserve` that needs no new chunk changes nothing either.
+pub(crate) fn ob_overflow_and_reserve<A, S>(k: usize, hint: usize)
+where
+    A: crate::BaseAllocator<S::GuaranteedAllocated> + Default,
+    S: BumpAllocatorSettings,
+{
+    let mut a = Arena::<A, S>::build(k, hint);
+    a.havoc();
+    let before = a.snaps();
+    let ci = a.cur;
+    unsafe { BUDGET = 0 };
+    let n: usize = kani::any();
+    let r = a.bump.alloc_slice::<AllocError, u64>(n);
+    if n > (isize::MAX as usize) / 8 {
+        kani::assert(r.is_err(), "C07.alloc_slice.overflowing_length_is_an_error");
+    }
+    if r.is_err() {
+        kani::assert(a.allocated_bytes_of_current_only() <= usize::MAX && a.wf(), "C07.alloc_slice.err_keeps_invariant");
+    }
+    let n2: usize = kani::any();
+    let r2 = a.bump.prepare_slice_allocation::<AllocError, u32>(n2);
+    if n2 > (isize::MAX as usize) / 4 {
+        kani::assert(r2.is_err(), "C07.prepare_slice.overflowing_length_is_an_error");
+    }
+    let add: usize = kani::any();
+    let s1 = a.snaps();
+    let c1 = a.cur_index();
+    let r3 = a.bump.reserve::<AllocError>(add);
+    // no new chunk can be created (budget 0): reserve never moves anything, Ok iff the remaining capacity suffices
+    kani::assert(same_headers(k, &s1, &a.snaps()) && a.cur_index() == c1, "C07.reserve.moves_nothing");
+    let st = a.bump.stats();
+    kani::assert(r3.is_ok() == (st.remaining() >= add) || add == 0, "C07.reserve.ok_iff_capacity_suffices_when_base_allocator_refuses");
+    kani::assert(a.wf() && unsafe { N_GRANTS } == k, "C07.overflow.wf_and_no_leak");
+    unsafe { BUDGET = usize::MAX };
+    kani::cover!(r.is_ok(), "slice-ok");
+    kani::cover!(n > (isize::MAX as usize) / 8, "slice-overflow");
+    kani::cover!(r3.is_ok() && add > 0, "reserve-ok");
+    kani::cover!(r3.is_err(), "reserve-refused");
+}
+
+/// `into_raw` / `from_raw` round trip (C05): the identity on the chunk pointer.
+pub(crate) fn ob_raw_round_trip<A, S>(k: usize, hint: usize)
+where
+    A: crate::BaseAllocator<S::GuaranteedAllocated> + Default,
+    S: BumpAllocatorSettings,
+{
+    let mut a = Arena::<A, S>::build(k, hint);
+    a.havoc();
+    let before = a.snaps();
+    let h = a.bump.chunk.get().header().as_ptr() as usize;
+    let raw = a.bump.clone().into_raw();
+    let back = unsafe { RawBump::<A, S>::from_raw(raw) };
+    kani::assert(back.chunk.get().header().as_ptr() as usize == h, "C05.into_raw_from_raw.identity");
+    kani::assert(same_headers(k, &before, &a.snaps()) && unsafe { ALLOC_CALLS } == k && unsafe { DEALLOC_CALLS } == 0, "C05.into_raw_from_raw.touches_nothing");
+    kani::cover!(true, "reached");
+}
+
+/// `ensure_satisfies_settings` (with_settings / borrow_mut_with_settings) on an allocated arena (C18):
+/// returns, position aligned to the new minimum alignment, nothing else changes.
+pub(crate) fn ob_with_settings_allocated<A, S, NewS>(k: usize, hint: usize)
+where
+    A: crate::BaseAllocator<S::GuaranteedAllocated> + Default,
+    S: BumpAllocatorSettings,
+    NewS: BumpAllocatorSettings,
+{
+    let mut a = Arena::<A, S>::build(k, hint);
+    a.havoc();
+    let ci = a.cur;
+    let bytes = a.allocated_bytes();
+    a.bump.ensure_satisfies_settings::<NewS>();
+    let pos = a.snaps()[ci].pos;
+    kani::assert(a.cur_index() == ci && al(pos, NewS::MIN_ALIGN) && al(pos, S::MIN_ALIGN), "C18.with_settings.position_aligned_to_new_min_align");
+    kani::assert(a.allocated_bytes() >= bytes && a.allocated_bytes() - bytes < 16 && a.wf(), "C18.with_settings.data_intact");
+    a.bump.ensure_satisfies_settings_for_borrow_mut::<NewS>();
+    kani::assert(a.snaps()[ci].pos == pos, "C18.borrow_mut_with_settings.idempotent_when_aligned");
+    kani::cover!(pos != a.geo(ci).content_start, "moved-or-inside");
+}
+
+/// conversions that require an allocated arena panic exactly when it is unallocated (C18)
+pub(crate) fn ob_with_settings_unallocated<S, NewS>(expect_return: bool)
+where
+    S: BumpAllocatorSettings<GuaranteedAllocated = crate::settings::False>,
+    NewS: BumpAllocatorSettings,
+{
+    log_reset();
+    let bump = RawBump::<LogAlloc, S>::new();
+    bump.ensure_satisfies_settings::<NewS>();
+    if expect_return {
+        kani::assert(bump.chunk.get().is_unallocated(), "C18.with_settings.unallocated_stays_unallocated");
+    } else {
+        kani::cover!(true, "must-not-reach: with_settings to GUARANTEED_ALLOCATED returned on an unallocated arena");
+    }
+}
+
 /// `BumpClaimGuard` (C14): new = claim, drop = reclaim, deref gives the claimant.
 pub(crate) fn ob_claim_guard<A, S>(k: usize, hint: usize)
 where
@@ -369,6 +464,7 @@ inst!(try_with_up1, unwind 4, ob_try_with, LogAlloc, SUp1, 2, 64, false);
 inst!(try_with_dn8, unwind 4, ob_try_with, LogAlloc, SDn8, 2, 64, false);
 inst!(try_with_mut_up8, unwind 4, ob_try_with, LogAlloc, SUp8, 2, 64, true);
 inst!(try_with_mut_dn1, unwind 4, ob_try_with, LogAlloc, SDn1, 2, 64, true);
+inst!(try_with_mut_dn16, unwind 4, ob_try_with, LogAlloc, St<16, false, true, true, true>, 2, 64, true);
 
 #[kani::proof]
 #[kani::unwind(3)]
@@ -399,6 +495,35 @@ pub(crate) fn unallocated_drop_dn4() {
 #[kani::should_panic]
 pub(crate) fn second_claim_panics_up1() {
     ob_second_claim_panics::<LogAlloc, SUp1>();
+}
+
+inst!(overflow_reserve_up1, unwind 4, ob_overflow_and_reserve, LogAlloc, SUp1, 2, 64);
+inst!(overflow_reserve_dn8, unwind 4, ob_overflow_and_reserve, LogAlloc, SDn8, 2, 64);
+inst!(raw_round_trip_up1, unwind 4, ob_raw_round_trip, LogAlloc, SUp1, 2, 64);
+
+type SUp16 = St<16, true, true, true, true>;
+type SDn8Un = St<8, false, false, true, true>;
+
+#[kani::proof]
+#[kani::unwind(4)]
+pub(crate) fn with_settings_up1_to16() {
+    ob_with_settings_allocated::<LogAlloc, SUp1, SUp16>(2, 64);
+}
+#[kani::proof]
+#[kani::unwind(4)]
+pub(crate) fn with_settings_dn1_to8() {
+    ob_with_settings_allocated::<LogAlloc, SDn1, SDn8>(2, 64);
+}
+#[kani::proof]
+#[kani::unwind(3)]
+pub(crate) fn with_settings_unallocated_stays() {
+    ob_with_settings_unallocated::<SDn4Un, SDn8Un>(true);
+}
+#[kani::proof]
+#[kani::unwind(3)]
+#[kani::should_panic]
+pub(crate) fn with_settings_unallocated_to_guaranteed_panics() {
+    ob_with_settings_unallocated::<SDn4Un, SDn8>(false);
 }
 
 inst!(claim_guard_up1, unwind 4, ob_claim_guard, LogAlloc, SUp1, 2, 64);
